@@ -8,7 +8,7 @@ from props import _ciphers as CI
 
 from crysp.bits import Bits
 from crysp.poly import Poly
-from crysp import aes as caes, des as cdes, serpent as cser, salsa20 as csal, chacha as ccha
+from crysp import aes as caes, des as cdes, serpent as cser, salsa20 as csal, chacha as ccha, wb as cwb
 from crysp.utils.operators import rol, ror
 
 RULE = ("Round trips f_inv(f(x)) == x == f(f_inv(x)); finite component domains are enumerated completely.  "
@@ -54,6 +54,11 @@ def check_rt_history(c):
             raise Violation(tag + ":caller's-key-vector-changed", shared["snap"], None)
         if kind.startswith("bad-"):
             attempt(getattr(obj, kind[4:]), blk)
+        elif kind == "wb-rounds":
+            # another public user of the DES key-schedule helpers works in between: white-box round tables for another key,
+            # rounds 0..k only (a generation that is given up half-way)
+            for r in range([15, 2, 15, 2, 1, 8, 16, 5][blk[0] % 8]):      # stopping one round short / after two rounds are the telling ones
+                attempt(cwb.table_rKT, r, Bits(blk[:8].ljust(8, b"k"), 64))
         elif kind in ("enc", "dec"):
             r = guard(getattr(obj, kind), blk)
             expect(isinstance(r, bytes) and len(r) == n, tag + ":|%s(B)|!=|B|" % kind, n, repr(r)[:80])
@@ -80,6 +85,8 @@ def rt_history_strategy(tier):
         n = CI.BLOCK[c["cipher"]]
         good = st.tuples(st.sampled_from(["rt", "tr", "rt", "tr", "enc", "dec"]), gen.blob(n))
         bad = st.tuples(st.sampled_from(["bad-enc", "bad-dec"]), gen.blob_of(st.sampled_from([n - 1, n + 1, 0, n // 2, 2 * n])))
+        if c["cipher"] in ("des", "tdea"):
+            bad = gen.pick((2, bad), (1, st.tuples(st.just("wb-rounds"), gen.blob(8))))
         return st.tuples(st.lists(gen.pick((4, good), (1, bad)), min_size=2, max_size=6), st.booleans()).map(
             lambda t: dict(c, sib=t[1], calls=tuple(t[0]) + (("rt", bytes(range(n))), ("tr", bytes(range(n))))))
     return CI.config_strategy().flatmap(with_calls)
@@ -272,7 +279,8 @@ FACETS = [
     Facet("cipher-roundtrip-histories", check_rt_history, strategy=rt_history_strategy, budget={"quick": 1200, "thorough": 30000},
           shards={"quick": 16, "thorough": 32}, nontrivial=lambda c: len(c["calls"]) >= 3,
           classify=lambda c: (CI.label(c), "has refused call" if any(k.startswith("bad-") for k, _ in c["calls"]) else "no refused call",
-                              "sibling object with another key" if c.get("sib") else "no sibling"),
+                              "sibling object with another key" if c.get("sib") else "no sibling",
+                              "white-box table generation in between" if any(k == "wb-rounds" for k, _ in c["calls"]) else "no foreign key-schedule use"),
           rule="ONE object: 4..8 calls mixing round trips in both orders, bare enc/dec calls and refused calls with a block of the wrong "
                "size; every round trip is also inverted by a fresh equally configured object (for Bits-typed Serpent/Threefish keys built "
                "from the SAME key vectors, which must stay unchanged); in half of the cases a sibling object with another key works in between"),
